@@ -12,7 +12,7 @@ from . import common
 ID = "C03"
 NEEDS_MODEL = True
 LEVEL = "exploration"
-N = {"quick": 960, "thorough": 36000}
+N = {"quick": 1440, "thorough": 36000}
 ACCEL = ["sigma", "extensor", "outerspace", "demo", "gamma"]
 PINNED = {
     "dyn_part": """
